@@ -125,12 +125,62 @@ func loadReal(limitPerBlock int) (items []realItem, notes []string) {
 	return items, notes
 }
 
+// realBlockParts: the four children of every real block (block#11ef55aa info:^BlockInfo value_flow:^ValueFlow
+// state_update:^(MERKLE_UPDATE ShardState) extra:^BlockExtra) and the block itself, decoded by the hand-written
+// decoders with flag-dependent layout — compared with their models (`decodeCustom`, the HashmapAug and BinTree
+// decoders).
+var realBlockParts = []struct {
+	Ref  int // -1: the block root
+	Type string
+}{{0, "tlb.BlockInfo"}, {1, "tlb.ValueFlow"}, {2, "tlb.MerkleUpdate[tlb.ShardState]"}, {3, "tlb.BlockExtra"}, {-1, "tlb.Block"}}
+
+func genRealBlocks(g *h.G) {
+	for _, fn := range blockFiles() {
+		data, err := os.ReadFile(fn)
+		if err != nil {
+			continue
+		}
+		cells, err := boc.DeserializeBoc(data)
+		if err != nil || len(cells) == 0 {
+			continue
+		}
+		root := cells[0]
+		for _, part := range realBlockParts {
+			tt, ok := tlbByN[part.Type]
+			if !ok || (tt.Class != "model" && tt.Class != "partial" && tt.Class != "decode") {
+				g.Count("real_block_part_without_model:" + part.Type)
+				continue
+			}
+			c := root
+			if part.Ref >= 0 {
+				if part.Ref >= len(root.Refs()) {
+					continue
+				}
+				c = root.Refs()[part.Ref]
+			}
+			tbl := tlbx.CellText(c)
+			limit := g.Scale(400000, 0)
+			if limit > 0 && len(tbl) > limit {
+				g.Count("real_block_part_skipped_too_large:" + part.Type)
+				continue
+			}
+			if _, err := unmarshalInto(c, tt.T); err != nil {
+				g.Count("real_block_part_go_decode_err:" + part.Type)
+			}
+			g.Emit("tlb.dec", tt.Name, tt.Ty, tt.Env, tbl)
+			g.Count("real_block_part_compared_with_model:" + part.Type)
+			g.NonTrivial("realblock/" + part.Type + "/" + tbl[:minInt(len(tbl), 64)])
+		}
+	}
+}
+
 var realTypes = map[string]string{"tx": "tlb.Transaction", "msg": "tlb.Message", "stateinit": "tlb.StateInit"}
 
 // genReal emits, for every real record: the direct re-decode / re-encode oracle, and (when the record stays inside
 // the model: no non-empty dictionary) the decode line compared with the Lean model. Distribution: how many records
 // reproduce their source hash, how many do not (non-canonical source encoding), how many cannot be re-encoded.
 func genReal(g *h.G) {
+	genRealBlocks(g)
 	items, notes := loadReal(g.Scale(60, 0))
 	for _, n := range notes {
 		g.Count("real_note:" + n)
